@@ -522,6 +522,14 @@ def run_search(ctx, codemods):
             failed = {str(Path(f).resolve().relative_to(job["proj"].resolve())) if Path(f).is_absolute() else f for f in res[0].get("failedFiles") or []}
             for cs in res[0]["changeset"]:
                 changes.setdefault(cs["path"], []).extend(c["lineNumber"] for c in cs["changes"])
+        # the search is vacuous for a codemod whose rule no longer flags its own triggers (review B15): that is lost
+        # coverage, i.e. a broken tie, never a silent pass
+        flagged_files = [fn for fn, info in job["files"].items() if not info["declined"] and job["before"].get(fn)]
+        plain = [fn for fn, info in job["files"].items() if not info["declined"] and "_module" in info["tag"]]
+        if not flagged_files or not any(job["before"].get(fn) for fn in plain):
+            ctx.mismatch("C18 search coverage", f"{cm.id}: the codemod's own rule flags none of its plain trigger programs "
+                         f"({len(flagged_files)} of {len(job['files'])} generated files flagged): nothing is being searched",
+                         {"op": "search_coverage", "codemod": cm.id, "files": {fn: job["files"][fn]["src"] for fn in plain[:3]}})
         for fn, info in job["files"].items():
             before = job["before"].get(fn, [])
             after = job["after"].get(fn, [])
